@@ -43,6 +43,14 @@ static bool alloc_guard(const std::vector<uint8_t>& img) {
   return c >= 0.0 && c < 4294967296.0 && 8ull * static_cast<uint64_t>(c) > CAP;
 }
 
+// 1: the restored sketch serializes to the bytes it was read from, 0: to something else, 2: serialize() throws
+static int reser(const sk_t& s, const std::vector<uint8_t>& img) {
+  try {
+    auto again = s.serialize();
+    return (again.size() <= img.size() && std::equal(again.begin(), again.end(), img.begin())) ? 1 : 0;
+  } catch (const std::exception&) { return 2; }
+}
+
 static void decode(int path, const std::vector<uint8_t>& img, Out& o, bool guarded = true) {
   if (guarded && alloc_guard(img)) { o.R(-8); return; }
   if (path == 0) {
@@ -52,16 +60,14 @@ static void decode(int path, const std::vector<uint8_t>& img, Out& o, bool guard
     struct Free { uint8_t* p; ~Free() { free(p); } } guard{buf};
     const uint8_t* p = n ? buf : buf + 1;                           // length 0: one past the end of a 1-byte block
     sk_t s = sk_t::deserialize(p, n);
-    auto again = s.serialize();
-    bool same = again.size() <= img.size() && std::equal(again.begin(), again.end(), img.begin());
-    o.R(1); o.R(same ? 1 : 0); fields(s, [&](I v) { o.R(v); });
+    int same = reser(s, img);
+    o.R(1); o.R(same); fields(s, [&](I v) { o.R(v); });
   } else {
     std::istringstream is(std::string(reinterpret_cast<const char*>(img.data()), img.size()), std::ios::in | std::ios::binary);
     sk_t s = sk_t::deserialize(is);
     long pos = (long)is.tellg();
-    auto again = s.serialize();
-    bool same = again.size() <= img.size() && std::equal(again.begin(), again.end(), img.begin());
-    o.R(1); o.R(pos); o.R(same ? 1 : 0); fields(s, [&](I v) { o.R(v); });
+    int same = reser(s, img);
+    o.R(1); o.R(pos); o.R(same); fields(s, [&](I v) { o.R(v); });
   }
 }
 
